@@ -147,6 +147,9 @@ pub struct World {
     pub merges: nat,                        // number of MLS merges performed in this call
     pub commits_created: nat,               // number of commits staged by this client (commit_to_pending_proposals / add / remove / ...)
     pub stored_proposals: Seq<QueuedProposal>, // proposals handed to store_pending_proposal
+    pub last_added: Seq<KeyPackage>,        // argument of the last OpenMLS add_members
+    pub last_removed: Seq<LeafNodeIndex>,   // argument of the last OpenMLS remove_members
+    pub last_proposed_extensions: Option<Extensions>, // argument of the last update_group_context_extensions
     pub is_better_result: Option<(GroupId, u64, u64, EventId, bool)>, // last is_better_candidate(group, epoch, ts, id) -> result
     // append-only logs (only the snapshot-manager shims append; every contract preserves them as prefixes)
     pub better_queries: Seq<(GroupId, u64, u64, EventId)>,   // every is_better_candidate(group, epoch, ts, id) call
@@ -301,7 +304,7 @@ impl MlsGroup {
     #[verifier::external_body]
     pub fn epoch(&self) -> (r: GroupEpoch) ensures r.e == self.view().epoch { unimplemented!() }
     #[verifier::external_body]
-    pub fn own_leaf(&self) -> (r: Option<&LeafNode>) ensures (r is Some) == self.view().own_leaf_present { unimplemented!() }
+    pub fn own_leaf(&self) -> (r: Option<&LeafNode>) ensures (r is Some) == self.view().own_leaf_present, r is Some ==> leaf_identity(*r->Some_0) == own_leaf_identity(self.view()) { unimplemented!() }
 
     // merge of a staged (received) commit. Requires, as call-site obligations of mdk:
     //  - a rollback snapshot of exactly this group and epoch was taken in this call (C01)
@@ -334,6 +337,8 @@ impl MlsGroup {
     pub fn export_group_context(&self) -> (r: &GroupContext) ensures r.ext() == self.view().ext { unimplemented!() }
 }
 
+// identity (32-byte basic credential) of the local member's own leaf, None if it has none / is not a member
+pub uninterp spec fn own_leaf_identity(v: MlsView) -> Option<PublicKey>;
 // ---- members and credentials (assumed OpenMLS API)
 #[verifier::external_body]
 pub struct Credential { _p: u8 }
@@ -435,6 +440,7 @@ pub enum Proposal {
     Custom(Box<OtherProposal>),
 }
 //@include mls_proposals_common.rs
+//@include mls_commit_ops.rs
 // (proposal iterators: see mls_proposals_vec.rs / mls_proposals_iter.rs, chosen per unit)
 
 pub struct MdkProvider<Storage: MdkStorageProvider> {
@@ -653,3 +659,5 @@ impl core::fmt::Display for PublicKey { #[verifier::external_body] fn fmt(&self,
 impl vstd::std_specs::fmt::DisplaySpecImpl for PublicKey { open spec fn fmt_req(&self, f: &core::fmt::Formatter<'_>) -> bool { true } }
 impl core::fmt::Display for EventId { #[verifier::external_body] fn fmt(&self, _f: &mut core::fmt::Formatter<'_>) -> core::fmt::Result { unimplemented!() } }
 impl vstd::std_specs::fmt::DisplaySpecImpl for EventId { open spec fn fmt_req(&self, f: &core::fmt::Formatter<'_>) -> bool { true } }
+impl core::fmt::Display for tls_codec::Error { #[verifier::external_body] fn fmt(&self, _f: &mut core::fmt::Formatter<'_>) -> core::fmt::Result { unimplemented!() } }
+impl vstd::std_specs::fmt::DisplaySpecImpl for tls_codec::Error { open spec fn fmt_req(&self, f: &core::fmt::Formatter<'_>) -> bool { true } }
